@@ -71,8 +71,8 @@ pub fn seq_check(prop: &str, tier: &str, suites: Vec<Suite>, tags: &[&str], budg
         );
         if !r.complete {
             all_complete = false;
-            if r.max_depth_completed < 2 {
-                report.machinery(format!("suite {} hit its time cap before depth 2 completed", s.name));
+            if r.max_depth_completed < s.uncapped_levels {
+                report.machinery(format!("suite {} stopped before depth {} completed", s.name, s.uncapped_levels));
             }
         }
         for m in r.machinery {
